@@ -15,12 +15,12 @@ for d in sorted(glob.glob(os.path.join(ROOT, "seeded", "*-*"))):
     m = re.search(r"caught by: (\[.*\]|NONE)", det)
     caught = ast.literal_eval(m.group(1)) if m and m.group(1) != "NONE" else []
     rules = sorted(set(re.findall(r"^    (C\d\d\.\S+) ", det, re.M)))
-    meta = dict(id=n, property=n.split("-")[0], round=1 if n[-1] in "AB" else 2 if n[-1] in "CD" else 3 if n[-1] in "EF" else 4 if n[-1] in "GH" else 5,
+    meta = dict(id=n, property=n.split("-")[0], round={"A": 1, "B": 1, "C": 2, "D": 2, "E": 3, "F": 3, "G": 4, "H": 4, "I": 5, "J": 5, "K": 6, "L": 6, "M": 7, "N": 7}.get(n[-1], 0),
                 summary=a.get("summary", ""), needs_to_manifest=a.get("needs_to_manifest", ""), files_changed=a.get("files_changed", []),
                 base_commit=("1042e09" if n[-1] in "ABCD" else "3a99f4a" if n[-1] in "EF" else "3920d20") + " (the /repo commit the sub-agent's worktree was at)",
                 confirmed="CONFIRMED" in ver,
                 what_i_ran=["tools/seedverify.sh %s %s : in the sub-agent's scratch worktree: demonstration passes on HEAD; with patch.diff applied the existing tests + doctests of renet/renetcode/renet_netcode pass and the demonstration fails" % tuple(n.split("-")),
-                            "tools/seedrun.py seeded/%s/patch.diff : all 20 ./check commands against a scratch copy of /repo with the patch applied" % n],
+                            "tools/seedfacts.py + tools/finalmatrix.py : facts extracted from a scratch copy of /repo with the patch applied; every property's rule file run on them (the five properties with an abstract-interpretation part by their full ./check)"],
                 demo_failure=[l.strip() for l in ver.splitlines() if "panicked" in l or "assertion" in l][:2],
                 caught_by=caught, reporting_rules=rules)
     json.dump(meta, open(os.path.join(d, "meta.json"), "w"), indent=1)
